@@ -139,6 +139,22 @@ impl RemotePublicKey {
 
         pubkey.try_into()
     }
+
+    /// Derive the `PeerId` of this remote public key.
+    ///
+    /// The peer ID of a key is defined over the *canonical* protobuf encoding of the key, not
+    /// over whatever bytes the remote sent: the protobuf decoder also accepts other encodings
+    /// of the same key (reordered or repeated fields, unknown fields, non-minimal varints), and
+    /// hashing those would give one key many peer IDs. `received_encoding` is only used for
+    /// key types that cannot be re-encoded locally.
+    #[cfg_attr(not(feature = "rsa"), allow(unused_variables))]
+    pub fn to_peer_id(&self, received_encoding: &[u8]) -> PeerId {
+        match self {
+            RemotePublicKey::Ed25519(public_key) => public_key.to_peer_id(),
+            #[cfg(feature = "rsa")]
+            RemotePublicKey::Rsa(_) => PeerId::from_public_key_protobuf(received_encoding),
+        }
+    }
 }
 
 impl TryFrom<keys_proto::PublicKey> for RemotePublicKey {
